@@ -4,15 +4,47 @@ import "time"
 
 var _ = time.Second
 
+func params(kv ...any) map[string]int {
+	m := map[string]int{}
+	for i := 0; i+1 < len(kv); i += 2 {
+		m[kv[i].(string)] = kv[i+1].(int)
+	}
+	return m
+}
+
+const (
+	aFilter = "bloom filter summarised by assume/guarantee (members are never denied = C16, discharged on the real code; false positives arbitrary)"
+	aS2     = "s2 compression modelled as an injective stored-block framing for symbolic content (s2 round-trips any stream; concatenated streams decode to the concatenation)"
+	aFS     = "file system model: POSIX semantics of the calls used, no I/O errors, ReadDir sorted by name"
+	aClock  = "clock non-decreasing; two WAL files are never created in the same nanosecond"
+)
+
 // jobsFor returns the harness runs that decide a property at a tier.
 func jobsFor(prop, tier string) []Job {
 	thorough := tier == "thorough"
-	_ = thorough
+	var js []Job
 	switch prop {
 	case "C10":
-		return []Job{
-			{Name: "c10-2x2", Pkg: "", Fn: "VH_C10", Inits: true, FilterSummary: true, Samples: 8},
+		mk := func(name string, p map[string]int) Job {
+			return Job{Name: name, Pkg: "", Fn: "VH_C10", Inits: true, FilterSummary: true, Samples: 4, Params: p,
+				Bounds:  map[string]any{"tables": p["T"], "entries_per_table": p["E"], "user_key_bytes": "1 (first KL2 entries: 2), all byte values incl. '@' and bytes below '@'", "timestamps": "0..MAXTS decimal", "block_size": "symbolic 0..64 (down to one entry per block)", "query": "symbolic key bytes and timestamp", "params": p},
+				Assumes: []string{aFilter, aS2, aFS, "entries of one table are sorted and distinct (what memtable.all() delivers); a (key, version) pair occurs once over all tables"},
+				Outside: []string{"more tables/entries than the listed configurations", "user keys longer than 2 bytes", "timestamps above 99"}}
+		}
+		js = []Job{
+			mk("c10-1x3", params("T", 1, "E", 3)),
+			mk("c10-2x2", params("T", 2, "E", 2)),
+			mk("c10-3x1-recover", params("T", 3, "E", 1, "RECOVER", 1, "KL2", 1)),
+			mk("c10-2x1-ts99", params("T", 2, "E", 1, "MAXTS", 99)),
+		}
+		if thorough {
+			js = append(js,
+				mk("c10-1x4", params("T", 1, "E", 4)),
+				mk("c10-2x2-k2", params("T", 2, "E", 2, "KL2", 2, "QKL", 2)),
+				mk("c10-2x3", params("T", 2, "E", 3)),
+				mk("c10-2x2-recover", params("T", 2, "E", 2, "RECOVER", 1)),
+			)
 		}
 	}
-	return nil
+	return js
 }
